@@ -262,7 +262,7 @@ theorem insertion_stores_a_shape {s s' : Snap} {n syn : Node} {f2o : SlotMap} {d
     (hsorted : ∀ c ∈ s.classes, Snap.sortedStrict c.slots = true)
     (h : Snap.addNew s n f2o syn data = some (s', a)) :
     (∀ c ∈ s'.classes, ∀ e ∈ c.nodes, (Node.weakShape e.1).1 = e.1) ∧ ∀ c ∈ s'.classes, Snap.sortedStrict c.slots = true := by
-  obtain ⟨n1, perms, hs⟩ := Snap.addNew_stored h
+  obtain ⟨n1, perms, hs, _⟩ := Snap.addNew_stored h
   obtain ⟨_, _, _, _, _, _, _, hwf, _, _, _, _, _⟩ := Snap.addNew_form h
   have key : ∀ c ∈ s'.classes, c ∈ s.classes ∨ (c.nodes = [Node.weakShape n1] ∧ c.slots = SlotMap.keys f2o) := by
     intro c hc
@@ -289,6 +289,15 @@ theorem insertion_stores_a_shape {s s' : Snap} {n syn : Node} {f2o : SlotMap} {d
   · rcases key c hc with hold | ⟨_, hsl⟩
     · exact hsorted c hold
     · rw [hsl]; exact Snap.sortedStrict_keys _ hwf
+
+/-- **the hashcons stays a function under insertion**: if no shape is stored twice (in one class or in two) before a modelled insertion,
+none is afterwards — the shape the new class stores is one `lookupShape` has just missed, and a missed shape is stored nowhere.  The
+hypothesis is what `checkInv` gives (`C08.inv_unique_class`). -/
+theorem insertion_keeps_hashcons_functional {s s' : Snap} {n syn : Node} {f2o : SlotMap} {data : String} {a : AppId}
+    (hok : Snap.AddOK s) (hu : (s.classes.flatMap fun c => c.nodes.map (·.1)).Nodup)
+    (h : Snap.addNew s n f2o syn data = some (s', a)) :
+    (s'.classes.flatMap fun c => c.nodes.map (·.1)).Nodup :=
+  Snap.add_keeps_shapes_unique hok hu h
 
 /-- non-vacuity: on the empty e-graph the node `f2($8, $12)` (variant 7, two slot fields) is a miss; with the fresh slots
 `101, 105` handed in, the model allocates class 0 -/
